@@ -47,7 +47,7 @@ RULE = ('every *_seq routine x order lists (ALL non-empty ascending subsets of {
         'whole arrays, 2-D, every point alone as length-1 and 0-d array, order lists containing only order 0, for every one-index routine; the two-index routines on the axis and the rim, monomials '
         'with zero base / zero exponent; class G - xy_seq on coordinates scaled by 1e-12 ... 1e12 against xy() RELATIVE to the size of each mode and against s^(m+n) times the unscaled modes; '
         'class I - every ordering of the two-index term lists (ascending, descending, grouped by |m|, m-major, sine first, radial orders non-ascending inside each |m| group, shuffles, all '
-        'permutations of three-term same-|m| groups incl. mixed signs) for zernike_nm_seq, zernike_nm_der_seq, Q2d_seq, xy_seq')
+        'permutations of three-term same-|m| groups incl. mixed signs) for zernike_nm_seq, zernike_nm_der_seq, Q2d_seq, xy_seq. Hardening pass 5: domain reading - every one-index routine on coordinates straddling / beyond the orthogonality interval (1 ulp, 1e-9, moderately and far beyond; |x| to 3 for the Jacobi-type families, negative x for Laguerre, |x| to 10 for Hermite, to 6 for Dickson, rho to 2 for Qbfs / Qcon; whole arrays, 2-D, one side only, single points, float32) judged point by point relative to max_j<=n |P_j(x)| where the single-order routine is finite; the two-index routines at r > 1 and the monomials at |x|, |y| > 1 (contracts)')
 ASSUMPTIONS = ['the single-order routine is the oracle (its own correctness is C07 / C09)',
                'one-index order lists are in-domain when non-empty, non-negative and strictly ascending (the documented contract: '
                '"sorted orders"); other lists reaching a contract are excluded and counted',
@@ -59,7 +59,8 @@ ASSUMPTIONS = ['the single-order routine is the oracle (its own correctness is C
                'emptying prysm\'s memo tables (functools cache_clear, where a helper offers it) never changes what a correct library returns',
                'sequence and single-order routine evaluate the same function, smooth in its shape parameters: parameters special only up to rounding are judged at the ordinary tolerance '
                '(established on /repo @ c2c1d7f: seq == single bit for bit for all of them)',
-               'the scale regimes of class G are judged by workload monitors relative to sup |mode|; the contracts keep their absolute floor of 1']
+               'the scale regimes of class G are judged by workload monitors relative to sup |mode|; the contracts keep their absolute floor of 1',
+               'coordinates are not restricted to the orthogonality interval: wherever the single-order routine returns finite values the sequence routine must agree (established on /repo @ HEAD for the coordinate sets of hardening pass 5)']
 REQUIRED = ['alias.arguments-intact', 'alias.result-stable', 'seq.jacobi_seq', 'seq.jacobi_der_seq', 'seq.legendre_seq', 'seq.legendre_der_seq',
             'seq.cheby1_seq', 'seq.cheby1_der_seq', 'seq.cheby2_seq', 'seq.cheby2_der_seq',
             'seq.cheby3_seq', 'seq.cheby3_der_seq', 'seq.cheby4_seq', 'seq.cheby4_der_seq',
@@ -67,7 +68,7 @@ REQUIRED = ['alias.arguments-intact', 'alias.result-stable', 'seq.jacobi_seq', '
             'seq.laguerre_seq', 'seq.laguerre_der_seq', 'seq.dickson1_seq', 'seq.dickson2_seq',
             'seq.Qbfs_seq', 'seq.Qcon_seq', 'seq.zernike_nm_seq', 'seq.zernike_nm_der_seq', 'seq.Q2d_seq', 'seq.xy_seq',
             'classD.very-high-orders', 'classE.argument-forms', 'classF.foreign-traffic',
-            'classG.scale-laws', 'classH.special-parameters', 'classH.special-points', 'classI.orderings']
+            'classG.scale-laws', 'classH.special-parameters', 'classH.special-points', 'classI.orderings', 'domain.beyond-interval']
 
 CTX = None
 HANDLED = [None]     # the exception object most recently classified by a contract (so the workload does not report it twice)
@@ -1163,6 +1164,116 @@ def hardening3(ctx, P, mine):
         scale_units(ctx, P)
 
 
+# ------------------------------------------------------------------------------------------ hardening pass 5 (HARDENING5.md: domain reading)
+def beyond_of(fn):
+    """Coordinates that straddle and leave the orthogonality interval / the interval the other workloads sample (the statement does not restrict the coordinates: wherever the
+    single-order routine is finite the sequence routine must agree): (lo, hi, points) - points just beyond the ends (1 ulp, 1e-9), moderately and far beyond, plus a few inside."""
+    lo, hi = domain(fn)
+    if fn.startswith('hermite'):
+        return lo, hi, np.array([-9.0, -4.25, ulps(lo, -1), -0.75, 0.0, 1.5, ulps(hi, 1), 3.5, 6.0, 10.0])
+    if fn.startswith('laguerre'):
+        return lo, hi, np.array([-6.0, -1.0, -0.125, -1e-9, ulps(0.0, -1), 0.0, 2.5, ulps(hi, 1), 15.0, 30.0])
+    if fn.startswith('dickson'):
+        return lo, hi, np.array([-6.0, -3.0, ulps(lo, -1), -0.5, 0.0, 1.25, ulps(hi, 1), 2.5, 5.0])
+    if fn.startswith('Q'):
+        return lo, hi, np.array([0.0, 0.5, 1.0, ulps(1.0, 1), 1.0 + 1e-9, 1.0625, 1.3, 2.0])
+    return lo, hi, np.array([-3.0, -1.5, -1.1, -1.0 - 1e-9, ulps(-1.0, -1), -1.0, -0.4375, 0.3, 1.0, ulps(1.0, 1), 1.0 + 1e-9, 1.1, 1.5, 3.0])
+
+
+BEYOND_LISTS = ([0, 1, 2, 3, 4, 5, 6], [2], [1, 5, 12], [0, 20], [3, 4, 5], [1], [0, 7, 8])
+
+
+def beyond_interval_units(ctx, P, fns):
+    """Domain reading: every one-index sequence routine on coordinate arrays extending beyond the orthogonality interval (straddling array, 2-D of outside points only, each side
+    alone, single outside points as length-1 and 0-d arrays, float32).  The contract judges each call row by row; in addition every POINT is judged here against the single-order
+    routine relative to the largest |P_j| (j = 0 .. n) at that very point (an error confined to the outside points, or to the inside points of a straddling array whose rows are
+    dominated by the far-outside values, cannot hide), wherever the single-order routine is finite."""
+    for fn in fns:
+        sub, single, npar = ONE_INDEX[fn]
+        lo, hi, pts = beyond_of(fn)
+        out = pts[(pts < lo) | (pts > hi)]
+        forms = [('straddle', pts), ('outside-2d', out[:4].reshape(2, 2)), ('above', pts[pts > hi]), ('below', pts[pts < lo]) if (pts < lo).any() else ('above-rev', pts[pts > hi][::-1]),
+                 ('0d-above', np.array(out[-2])), ('0d-just-above', np.array(pts[pts > hi][0])), ('len1-outside', out[:1]), ('f32-straddle', pts.astype(np.float32))]
+        for pi, par in enumerate(PARAMS[npar][:2] + ([(0.0, 0.0)] if npar == 2 else [])):
+            for li, ns in enumerate(BEYOND_LISTS):
+                if pi and li % 2:
+                    continue
+                for form, xv in forms:
+                    if xv.size == 0 or (form == 'f32-straddle' and ns[-1] > 8):
+                        continue
+                    desc = {'wl': 'beyond-interval', 'fn': fn, 'ns': ns, 'params': list(par), 'x': form, 'class': f'{fn}:beyond-interval:{form}'}
+                    ctx.case(desc, nontrivial=ns[-1] >= 1)
+                    got = call(ctx, P, fn, desc, ns if li % 2 else np.array(ns), *par, xv)
+                    if got is None:
+                        ctx.observe('domain.beyond-interval')
+                        continue
+                    got = np.asarray(got)
+                    with quiet(), np.errstate(all='ignore'):
+                        table = np.array([np.asarray(ORIG[single](n, *par, xv)) for n in range(ns[-1] + 1)])
+                    if got.shape != (len(ns), *xv.shape):
+                        ctx.require('domain.beyond-interval', False, f'C08/{fn}/beyond-interval/shape', f'{fn} on coordinates beyond the interval returns shape {got.shape}', desc)
+                        continue
+                    ref = table[ns]
+                    fin = np.isfinite(ref)
+                    with np.errstate(all='ignore'):
+                        mag = np.where(np.isfinite(table), np.abs(table), 0.0)
+                        scale = np.maximum(1.0, np.maximum.accumulate(mag, axis=0)[ns])
+                        rtol = RTOL32 if (xv.dtype == np.float32 or cfg32()) else RTOL
+                        badpt = fin & ~(np.abs(got - ref) <= rtol * scale)
+                    if not fin.any():
+                        ctx.skip(f'{fn}: single-order routine not finite anywhere on the beyond-interval coordinates (nothing to compare)')
+                        continue
+                    where = ''
+                    if badpt.any():
+                        xb = np.broadcast_to(xv, badpt.shape)[badpt]
+                        where = 'outside' if ((xb < lo) | (xb > hi)).all() else ('inside' if ((xb >= lo) & (xb <= hi)).all() else 'both')
+                    ctx.require('domain.beyond-interval', not badpt.any(), f'C08/{fn}/beyond-interval/{where}-points',
+                                f'{fn}[k] != {single}(orders[k]) at coordinates {where} the interval [{lo}, {hi}] (judged point by point relative to max_j<=n |P_j(x)|, where the single-order routine is finite)',
+                                desc, failing_orders=[ns[k] for k in range(len(ns)) if badpt[k].any()][:8], n_points=int(badpt.sum()))
+
+
+def beyond_interval_two(ctx, P):
+    """Domain reading for the two-index families: r beyond the unit disc (the single-term routines are polynomials in r and finite there), |x|, |y| > 1 for the monomials;
+    judged by the contracts (each call) - the monitor counts the calls."""
+    r = np.array([0.3, 1.0, ulps(1.0, 1), 1.0 + 1e-9, 1.0625, 1.3, 2.0, 1.5])
+    t = np.array([0.0, 1.25, np.pi / 2, -0.7, 2.5, np.pi, 4.0, 5.5])
+    zl = [[(1, 1)], [(2, 0), (4, 0), (6, 0)], [(1, 1), (1, -1), (3, 1), (3, -1), (2, 0), (5, 1)], [(2, 2), (2, -2), (4, 2), (0, 0)], [(n, m) for n in range(7) for m in range(-n, n + 1, 2)]]
+    ql = [[(0, 1)], [(2, 0), (1, 0), (3, 0)], [(0, 1), (0, -1), (1, 1), (2, -1), (0, 0), (3, 1), (4, 1)], [(1, 2), (0, -2), (2, 0), (3, 2)], [(n, m) for n in range(4) for m in range(-3, 4)]]
+    for form, rv, tv in (('straddle', r, t), ('outside-2d', r[2:].reshape(2, 3), t[2:].reshape(2, 3)), ('0d-outside', np.array(1.3), np.array(1.25)), ('len1-outside', r[5:6], t[5:6])):
+        for lst in zl:
+            for fn in ('zernike_nm_seq', 'zernike_nm_der_seq'):
+                for norm in (True, False):
+                    desc = {'wl': 'beyond-interval', 'fn': fn, 'nms': lst[:8], 'norm': norm, 'x': form, 'class': f'{fn}:beyond-interval:{form}'}
+                    ctx.case(desc)
+                    ctx.observe('domain.beyond-interval')
+                    call(ctx, P, fn, desc, lst, rv, tv, norm=norm)
+        for lst in ql:
+            desc = {'wl': 'beyond-interval', 'fn': 'Q2d_seq', 'nms': lst[:8], 'x': form, 'class': f'Q2d_seq:beyond-interval:{form}'}
+            ctx.case(desc)
+            ctx.observe('domain.beyond-interval')
+            call(ctx, P, 'Q2d_seq', desc, lst, rv, tv)
+    x0 = np.array([-3.0, 1.5, -1.1, 2.0, 0.5, ulps(1.0, 1)])
+    y0 = np.array([2.5, -1.25, 0.75, -4.0, 1.5, -1.0])
+    X0, Y0 = np.meshgrid(np.array([-2.0, 0.5, 1.5, 3.0]), np.array([-1.5, 1.0, 2.25]))
+    exps = [(m, n) for m in range(0, 4) for n in range(0, 4)] + [(7, 0), (0, 7), (6, 1)]
+    for lst in ([(0, 3)], [(3, 0)], exps, exps[::-1], [(0, 3), (3, 0), (0, 0), (1, 1)]):
+        for form, xv, yv, cart in (('general', x0, y0, False), ('meshgrid', X0, Y0, True), ('meshgrid-flag-off', X0, Y0, False), ('general-0d', np.array(-2.5), np.array(1.75), False),
+                                   ('separable', X0[:1], Y0[:, :1], True)):
+            desc = {'wl': 'beyond-interval', 'fn': 'xy_seq', 'mns': lst[:8], 'x': form, 'class': f'xy_seq:beyond-interval:{form}'}
+            ctx.case(desc)
+            ctx.observe('domain.beyond-interval')
+            call(ctx, P, 'xy_seq', desc, lst, xv, yv, cartesian_grid=cart)
+
+
+def hardening5(ctx, P, mine):
+    fns = list(ONE_INDEX)
+    for i in range(0, len(fns), 6):
+        if mine():
+            beyond_interval_units(ctx, P, fns[i:i + 6])
+    if mine():
+        beyond_interval_two(ctx, P)
+
+
 def hardening(ctx, P, counter):
     fns = list(ONE_INDEX)
 
@@ -1212,6 +1323,7 @@ def hardening(ctx, P, counter):
     if mine():
         cfg32_two(ctx, P, ctx.rng('cfg32-two'))
     hardening3(ctx, P, mine)
+    hardening5(ctx, P, mine)
 
 
 def _run(ctx):
